@@ -1112,6 +1112,49 @@ def declare_sender(w):
     w.add(Contract(PL, {"self": REF("RSync"), "channel": REF("Channel")}, requires=lambda a, h: [("channel", a.channel != 0)], modifies=lambda a, h: [("Channel", a.channel, "$sent")],
                    cases=[Case("ok", post=lambda a, h, h2, r: [sent(h2, a.channel) == z3.Concat(sent(h, a.channel), h("RSync", a.self, "_links"), z3.Unit(core.int2u(z3.IntVal(42))))]),
                           Case("closed", "raise", "OSError")], props=["C17"]))
+    # ---- _done / _end_of_channel: one target has finished; what the OTHER targets still need (the collected links, the source directory) is left alone ----
+    s.declare("RSync", "_channels", MAP(REF("Channel"), ANY))       # target channel -> finished callback (or None)
+    s.declare("RSync", "$finished_calls", SEQ(ANY), ghost=True)     # finished callbacks invoked, in order
+    fcalls = lambda h, r: h("RSync", r, "$finished_calls")
+    chans = lambda h, r: h.sv("RSync", r, "_channels")
+    w.add(Contract(f"{GB_}:Channel.waitclose", {"self": REF("Channel"), "timeout": OPT(INT)}, defaults={"timeout": None},
+                   cases=[Case("closed"), Case("remote-error", "raise", "RemoteError"), Case("connection-lost", "raise", "EOFError"), Case("timeout", "raise", "OSError")], trusted=True, note="C03"))
+
+    def finished_callback(ex, callee, args, kwargs, st, sink, node):
+        """the user's finishedcallback(): opaque; recorded in the ghost history; may raise any Exception; holds no reference to the RSync object's private state"""
+        me = st.locals.get("self")
+        if me is None or me.ty != REF("RSync") or args or kwargs:
+            raise Unsupported("call of an opaque value")
+        ex.set_field(st, me, "$finished_calls", SV(SEQ(ANY), z3.Concat(st.heap.get(me, "$finished_calls").v, z3.Unit(callee.v))))
+        s2 = st.fork()
+        e = core.ExcV("Exception", (), None, origin="finished callback")
+        e.exact = False
+        sink.append((s2, ("raise", e)))
+        yield st, core.NONEV
+
+    w.call_hooks[("call", "any")] = finished_callback
+
+    def done_post(a, h, h2, r):
+        present, vals = chans(h, a.self).v[0], chans(h, a.self).v[1][0]
+        cb = z3.Select(vals, a.channel)
+        return [chans(h2, a.self).v[0] == z3.Store(present, a.channel, False),                                             # this target is no longer waited for; the others still are
+                fcalls(h2, a.self) == z3.If(symexec_truthy(cb), z3.Concat(fcalls(h, a.self), z3.Unit(cb)), fcalls(h, a.self))]   # its callback (if any) was called once
+
+    from pyvc.symexec import truthy_any as symexec_truthy
+    DMOD = lambda a, h: [("RSync", a.self, "_channels"), ("RSync", a.self, "$finished_calls")]     # NOT _links, _sourcedir, _paths, _to_send: later targets replay them
+    w.add(Contract(f"{RSYNC}:RSync._done", {"self": REF("RSync"), "channel": REF("Channel")},
+                   requires=lambda a, h: [("channel", a.channel != 0)], modifies=DMOD,
+                   cases=[Case("ok", when=lambda a, h: z3.Select(chans(h, a.self).v[0], a.channel), post=done_post),
+                          Case("not-a-target", "raise", "KeyError", when=lambda a, h: z3.Not(z3.Select(chans(h, a.self).v[0], a.channel)),
+                               post=lambda a, h, h2, e: [core.eq_sv(chans(h2, a.self), chans(h, a.self))]),
+                          Case("callback-raises", "raise", "Exception"), Case("remote-error", "raise", "RemoteError"), Case("connection-lost", "raise", "EOFError"), Case("timeout", "raise", "OSError")],
+                   props=["C17"]))
+    w.add(Contract(f"{RSYNC}:RSync._end_of_channel", {"self": REF("RSync"), "channel": REF("Channel")}, requires=lambda a, h: [("channel", a.channel != 0)],
+                   cases=[Case("already-done", when=lambda a, h: z3.Not(z3.Select(chans(h, a.self).v[0], a.channel))),      # the end marker of a finished target: nothing to do
+                          Case("too-early", "raise", "OSError", when=lambda a, h: z3.Select(chans(h, a.self).v[0], a.channel)),   # a target that ends before it is done is an error, never a silent success
+                          Case("remote-error", "raise", "RemoteError", when=lambda a, h: z3.Select(chans(h, a.self).v[0], a.channel)),
+                          Case("connection-lost", "raise", "EOFError", when=lambda a, h: z3.Select(chans(h, a.self).v[0], a.channel))],
+                   props=["C17"]))
     w.add_loop(LoopSpec(PL, 0, invariant=lambda L: [("links-sent-so-far-in-order", sent(L.h, L.inp("channel")) == z3.Concat(sent(L.old, L.inp("channel")), z3.SubSeq(L.old("RSync", L.inp("self"), "_links"), 0, L.k))),
                                                      ("params", z3.And(L.channel == L.inp("channel"), L.self == L.inp("self")))],
                         havoc_cells=lambda L: [("Channel", L.inp("channel"), "$sent")], props=["C17"]))
